@@ -226,7 +226,7 @@ func Harness_skeletons() {
 	hole := func(tag string, scope ...string) MalType { return g.node(tag, vrt.Param("holedepth", 1), scope) }
 	n := vrt.IntRange("n", 0, 3)
 	var prog MalType
-	switch vrt.Concrete(vrt.Choice("family", 10)) {
+	switch vrt.Concrete(vrt.Choice("family", 11)) {
 	case 0: // self recursion with a symbolic counter: (do (def g1 (fn [x] (if (< x 1) H (g1 (- x 1))))) (g1 n))
 		prog = lst(sym("do"),
 			lst(sym("def"), sym("g1"), lst(sym("fn"), vect(sym("x")),
@@ -274,10 +274,36 @@ func Harness_skeletons() {
 		prog = lst(sym("do"), lst(sym("def"), sym("g1"), n),
 			lst(sym("let"), Vector{Val: binds}, lst(sym("def"), sym("g1"), hole("h")), lst(sym("def"), sym("g2"), 9), sym("g1")),
 			lst(sym("list"), sym("g1"), lst(sym("if"), true, sym("g2"))))
-	default: // a parameter shadowed by a def inside a nested scope of the function body
+	case 9: // a parameter shadowed by a def inside a nested scope of the function body
 		prog = lst(sym("do"),
 			lst(sym("def"), sym("g1"), lst(sym("fn"), vect(sym("x")), lst(sym("let"), vect(), lst(sym("def"), sym("x"), 0)), sym("x"))),
 			lst(sym("g1"), n))
+	default: // arity: 0..2 parameters, with or without & rest, called with 0..3 effectful arguments, directly or through apply;
+		// a count the parameter list does not accept is an error raised before the body runs
+		np := vrt.Concrete(vrt.Choice("np", 3))
+		ps := []MalType{}
+		body := []MalType{sym("list")}
+		for i := 0; i < np; i++ {
+			ps = append(ps, sym(string(rune('x'+i))))
+			body = append(body, sym(string(rune('x'+i))))
+		}
+		if vrt.Bool("rest") {
+			ps = append(ps, sym("&"), sym("r"))
+			body = append(body, sym("r"))
+		}
+		k := vrt.Concrete(vrt.Choice("argc", 4))
+		args := []MalType{}
+		for i := 0; i < k; i++ {
+			args = append(args, lst(sym("trace!"), vrt.Int("a"+string(rune('0'+i)))))
+		}
+		fnForm := lst(sym("fn"), Vector{Val: ps}, lst(sym("trace!"), List{Val: body}))
+		var callForm MalType
+		if vrt.Bool("viaapply") {
+			callForm = lst(sym("apply"), sym("g1"), List{Val: append([]MalType{sym("list")}, args...)})
+		} else {
+			callForm = List{Val: append([]MalType{sym("g1")}, args...)}
+		}
+		prog = lst(sym("do"), lst(sym("def"), sym("g1"), fnForm), lst(sym("trace!"), callForm), lst(sym("trace!"), 7))
 	}
 	compare(prog)
 }
